@@ -382,6 +382,11 @@ theorem C09_generated_sketch_overlaps (hash : Bytes → Nat) (frameId : Nat) (do
 /-- two frames; frame 0 holds the query word (its filter contains the query's bits) but its SimHash is
     64 bits from the query's; frame 1 does not hold the word, shares one filter bit, SimHash equal to the
     query's.  The pre-filter keeps {1}; the engine, restricted to {1}, has nothing to return. -/
+def wE0 : Entry :=
+  { frameId := 0, simhash := 2 ^ 64 - 1, termFilter := [7] ++ zeros 15, topTerms := [0, 0], termWeightSum := 0, flags := 7, lengthHint := 0 }
+def wE1 : Entry :=
+  { frameId := 1, simhash := 0, termFilter := [1] ++ zeros 15, topTerms := [0, 0], termWeightSum := 0, flags := 7, lengthHint := 0 }
+
 def witnessInst : Inst where
   W := { engine := Filter.idealEngine [0]
          docs := fun f => if f = 0 then some { frame := 0, chunkStart := 0, chunkLen := 100, slices := [(0, 80)] } else none
@@ -389,8 +394,7 @@ def witnessInst : Inst where
          frames := [] }
   rank := [0]
   matching := [0]
-  t := ⟨.small, [ { frameId := 0, simhash := 2 ^ 64 - 1, termFilter := [7] ++ zeros 15, topTerms := [0, 0], termWeightSum := 0, flags := 7, lengthHint := 0 },
-                  { frameId := 1, simhash := 0, termFilter := [1] ++ zeros 15, topTerms := [0, 0], termWeightSum := 0, flags := 7, lengthHint := 0 } ]⟩
+  t := ⟨.small, [wE0, wE1]⟩
   q := { simhash := 0, termFilter := [7] ++ zeros 15, topTerms := [5], tokenCount := 1 }
   order := id
   topK := 10
@@ -425,6 +429,47 @@ theorem C09_counterexample : ¬ C09_full := by
   have := h witnessInst witnessInst_valid false 0 (by decide)
   revert this
   decide
+
+/-- **C09_cut_refuted** — not an accident of the number 32: for EVERY threshold below 64 the property is
+    false (same instance: the entry of the frame that holds the word is 64 bits away). -/
+theorem C09_cut_refuted (thr : Nat) (hthr : thr < SIMHASH_BITS) : ¬ C09_full_at thr := by
+  intro hfull
+  have h0 := hfull witnessInst witnessInst_valid false 0 (by decide)
+  have hs : HAMMING_CUT_STRICT = true := by decide
+  have hb : SIMHASH_BITS = 64 := by decide
+  have hp0 : passes witnessInst.q thr wE0 = false := by
+    have ho : maybeOverlaps wE0.termFilter witnessInst.q.termFilter = true := by decide
+    have hh : hamming wE0.simhash witnessInst.q.simhash = 64 := by decide
+    have hc : cut thr 64 = true := by
+      unfold cut; rw [hs]; simp only [if_true]; exact decide_eq_true (by omega)
+    simp [passes, verdict, ho, hh, hc]
+  have hp1 : passes witnessInst.q thr wE1 = true := by
+    have ho : maybeOverlaps wE1.termFilter witnessInst.q.termFilter = true := by decide
+    have hh : hamming wE1.simhash witnessInst.q.simhash = 0 := by decide
+    have hc : cut thr 0 = false := by
+      unfold cut; rw [hs]; simp only [if_true]; exact decide_eq_false (by omega)
+    simp [passes, verdict, ho, hh, hc]
+  have hc : findCandidates id witnessInst.q witnessInst.t thr (maxCandidates 10) = [1] := by
+    have he : witnessInst.t.entries = [wE0, wE1] := rfl
+    have hm : maxCandidates 10 = 500 := by decide
+    simp only [findCandidates, he, List.filter_cons, hp0, hp1, List.filter_nil, Bool.false_eq_true, ↓reduceIte, id, hm]
+    decide
+  have hd : ∀ f d, witnessInst.W.docs f = some d → d.frame = f := by
+    intro f d h
+    by_cases hf : f = 0
+    · subst hf; simp [witnessInst] at h; rw [← h]
+    · simp [witnessInst, hf] at h
+  exact C09_dropped_never_found thr witnessInst.W id witnessInst.q witnessInst.t [0] [0] 10
+    witnessInst_valid.engine hd (fun l => List.Perm.refl l) (by decide) (by rw [hc]; decide) 0 (by rw [hc]; decide) h0
+
+/-- **C09_full_iff** — the property holds for exactly the thresholds that make the Hamming cut void -/
+theorem C09_full_iff (thr : Nat) : C09_full_at thr ↔ SIMHASH_BITS ≤ thr := by
+  constructor
+  · intro h
+    by_cases hc : SIMHASH_BITS ≤ thr
+    · exact hc
+    · exact absurd h (C09_cut_refuted thr (by omega))
+  · exact C09_nocut thr
 
 /-- the same instance is fine with `no_sketch` (and with any threshold ≥ 64): the loss is the cut's -/
 example : hitFrames witnessInst.W id witnessInst.q witnessInst.t { topK := 10, noSketch := true } = [0] ∧
